@@ -106,42 +106,84 @@ def _digest(path):
     return out
 
 
+def _batch(env, tag, name, items, conc, timeout):
+    """one hermes2go process over items [(index, line)]; -> (died, {index: error}, stderr tail)"""
+    bf = os.path.join(env.ex, "%s_%s.txt" % (tag, name))
+    with open(bf, "w") as f:
+        for i, l in items:
+            f.write("%s resultfolder=%s/l%d\n" % (l, tag, i))
+    try:
+        p = subprocess.run([env.bin, "-module", "batch", "-concurrent", str(conc), "-batch", bf], cwd=env.ex,
+                           stdout=subprocess.PIPE, stderr=subprocess.PIPE, text=True, errors="replace", timeout=timeout)
+        rc, out, err = p.returncode, p.stdout, p.stderr
+    except subprocess.TimeoutExpired:
+        rc, out, err = -9, "", "timeout"
+    errs = {}
+    if "Error Summary:" in out:
+        for m in re.finditer(r"(?m)^\[(\d+)\] Error:(.*)$", out.split("Error Summary:", 1)[1]):
+            k = int(m.group(1))
+            if k < len(items):
+                errs[items[k][0]] = m.group(2).strip()
+    died = rc != 0 or "Number of errors:" not in out
+    return died, errs, "rc=%s: %s" % (rc, (err or out)[-300:].replace("\n", " | "))
+
+
+def _sequential(env, tag, name, items, timeout):
+    """items one after the other in one process; a line that ends the process (panic / Fatal) is identified,
+    recorded as its error, and the rest goes on in a new process.  -> {index: error}"""
+    errs = {}
+    remaining = list(items)
+    rnd = 0
+    while remaining:
+        rnd += 1
+        died, e, tail = _batch(env, tag, "%s_r%d" % (name, rnd), remaining, 1, timeout)
+        errs.update(e)
+        if not died:
+            break
+        pos = 0
+        for k, (i, _) in enumerate(remaining):
+            if os.path.isdir(os.path.join(env.ex, tag, "l%d" % i)):
+                pos = k
+        i, l = remaining[pos]
+        shutil.rmtree(os.path.join(env.ex, tag, "l%d" % i), ignore_errors=True)
+        d1, e1, t1 = _batch(env, tag, "%s_r%d_one" % (name, rnd), [(i, l)], 1, timeout)
+        errs.update(e1)
+        if d1:
+            errs[i] = "process died " + t1
+        remaining = remaining[pos + 1:]
+    return errs
+
+
 def run_lines(env, tag, lines, conc=16, timeout=900):
-    """runs the batch lines (each with its own result folder <tag>/l<i>); returns [Run]"""
+    """runs the batch lines (each with its own result folder <tag>/l<i>); returns [Run].  When a line ends the
+    whole process, everything is run again in `conc` sequential workers that isolate such lines."""
     root = os.path.join(env.ex, tag)
     shutil.rmtree(root, ignore_errors=True)
-    bf = os.path.join(env.ex, tag + "_batch.txt")
-    with open(bf, "w") as f:
-        for i, l in enumerate(lines):
-            f.write("%s resultfolder=%s/l%d\n" % (l, tag, i))
+    items = list(enumerate(lines))
     t0 = time.time()
-    p = subprocess.run([env.bin, "-module", "batch", "-concurrent", str(conc), "-batch", bf], cwd=env.ex,
-                       stdout=subprocess.PIPE, stderr=subprocess.PIPE, text=True, errors="replace", timeout=timeout)
+    died, errs, tail = _batch(env, tag, "batch", items, conc, timeout)
+    if died and len(lines) > 1:
+        shutil.rmtree(root, ignore_errors=True)
+        from concurrent.futures import ThreadPoolExecutor
+        parts = [items[k::conc] for k in range(conc)]
+        with ThreadPoolExecutor(max_workers=conc) as ex:
+            res = list(ex.map(lambda kp: _sequential(env, tag, "w%d" % kp[0], kp[1], timeout), [(k, p_) for k, p_ in enumerate(parts) if p_]))
+        errs = {}
+        for e in res:
+            errs.update(e)
+    elif died:
+        errs[0] = "process died " + tail
     env.run_wall += time.time() - t0
     env.runs += len(lines)
     runs = []
-    errs = {}
-    if "Error Summary:" in p.stdout:
-        tail = p.stdout.split("Error Summary:", 1)[1]
-        for m in re.finditer(r"(?m)^\[(\d+)\] Error:(.*)$", tail):
-            errs[int(m.group(1))] = m.group(2).strip()
-    died = p.returncode != 0 or "Number of errors:" not in p.stdout
-    for i, l in enumerate(lines):
+    for i, l in items:
         r = Run(); r.idx = i; r.line = l
         r.files = _digest(os.path.join(root, "l%d" % i))
         if i in errs:
             r.err = errs[i]
-        elif died:
-            r.err = "process died rc=%s: %s" % (p.returncode, (p.stderr or p.stdout)[-300:].replace("\n", " | "))
         elif not r.files:
             r.err = "no result files"
         runs.append(r)
-    if died and len(lines) > 1:       # isolate the line that killed the process
-        runs = []
-        for i, l in enumerate(lines):
-            rr = run_lines(env, "%s_s%d" % (tag, i), [l], conc=1, timeout=timeout)[0]
-            rr.idx = i
-            runs.append(rr)
     return runs
 
 
@@ -523,14 +565,14 @@ def param_folder(env, name, replace):
 # valid and invalid values per overridable parameter (decimal texts; partition values fit 5 columns)
 VALID = {"MAXAMAX": ["100", "37.5", "0.5"], "MINTMP": ["-29.5", "0", "49.9", "3.5"], "WUMAXPF": ["20", "7.5", "0.1"],
          "VELOC": ["1", "0.35", "0.005"], "YIFAK": ["0", "1", "0.45", ".8"], "INITCONCNBIOM": ["0", "100", "4.25"],
-         "INITCONCNROOT": ["0", "100", "1.3"], "TSUM": ["25", "10000", "237.5", "90"], "BAS": ["-10", "40", "4.5"],
+         "INITCONCNROOT": ["0", "100", "1.3"], "TSUM": ["25", "10000", "237.5", "90", "0.000000001"], "BAS": ["-10", "40", "4.5"],
          "VSCHWELL": ["0", "100", "33"], "DAYL": ["-24", "24", "13.5"], "DLBAS": ["-24", "24", "7.25"],
          "DRYSWELL": ["0", "1", "0.55"], "LUKRIT": ["0", "1", "0.04"], "LAIFKT": ["0", "100", "0.0021"],
          "WGMAX": ["0", "100", "0.015"], "KC": ["0.05", "1.3", "250"], "PRO": ["0", "1", "0.35", ".125"],
          "DEAD": ["0", "1", "0.02", ".005"]}
 INVALID = {"MAXAMAX": ["0", "100.5", "-3"], "MINTMP": ["-30", "50", "77"], "WUMAXPF": ["0", "20.5"], "VELOC": ["0", "1.01"],
            "YIFAK": ["-0.1", "1.01"], "INITCONCNBIOM": ["-1", "100.1"], "INITCONCNROOT": ["-0.5", "101"],
-           "TSUM": ["-1", "10001"], "BAS": ["-10.5", "41"], "VSCHWELL": ["-1", "100.5"], "DAYL": ["-25", "24.5"],
+           "TSUM": ["0", "-1", "10001"], "BAS": ["-10.5", "41"], "VSCHWELL": ["-1", "100.5"], "DAYL": ["-25", "24.5"],
            "DLBAS": ["-24.1", "25"], "DRYSWELL": ["-0.1", "1.1"], "LUKRIT": ["-0.01", "1.5"], "LAIFKT": ["-1", "101"],
            "WGMAX": ["-0.1", "100.5"], "KC": ["0", "-0.5"], "PRO": ["-0.1", "1.1"], "DEAD": ["-0.2", "1.5"]}
 
